@@ -75,7 +75,7 @@ def analyse(facts, tier):
                     continue
                 cnt = short(strip(x['e'])['n'])
                 fld = 'glideRate' if cnt.startswith('gliding') else 'ttl'
-                gf = guard_facts(fn, b, st)
+                gf = expand_locals(fn, guard_facts(fn, b, st))      # `const bool wasGliding = (glideRate != HUGE_VAL); if(wasGliding)`
                 tests = any(mentions(f[1] if f[0] == 'truth' else [f[2], f[3]] if f[0] == 'cmp' else [], lambda y: y.get('k') == 'MemberExpr' and short(y['n']) == fld) or
                             mentions(f[1] if f[0] == 'truth' else [f[2], f[3]] if f[0] == 'cmp' else [], lambda y: y.get('k') == 'DeclRefExpr' and short(y['n']) == fld) for f in gf)
                 # or a store to the field in the same block region (the transition itself)
@@ -169,7 +169,7 @@ def analyse(facts, tier):
                     'evacuation does not update the note and both chip channels together'))
     gf = guard_facts(ke, b0, pb[0][2])
     txt = ' '.join(fact_str(f) for f in gf)
-    cap = any(f[0] == 'cmp' and f[1] == '!=' and 'size' in fact_str(f) and 'capacity' in fact_str(f) for f in gf)
+    cap = has_room_fact(ke, gf)
     dup = any((f[0] == 'truth' and f[2] and short(callee_name(strip(f[1]))) == 'is_end' and mentions(f[1], lambda y: short(callee_name(y)) == 'find_user')) for f in gf)
     obls.append(Obl('C04.R4', ke.name, 'target capacity test dominates push_back', pb[0][2]['loc'], 'discharged' if cap else 'finding',
                     why='users.size() != users.capacity()' if cap else 'push_back into a possibly full user list (pl_list::insert throws)'))
@@ -201,7 +201,7 @@ def analyse(facts, tier):
                         obls.append(Obl('C04.R5', fn.name, 'activenotes.insert', st['loc'], 'discharged' if found_none else 'finding',
                                         why='inserted only when the key is not present; 128 keys, capacity 128' if found_none else 'insert is not conditional on the key being absent'))
                     else:
-                        ok = ('capacity' in txt and 'size' in txt)
+                        ok = has_room_fact(fn, gf)
                         obls.append(Obl('C04.R5', fn.name, '%s.%s' % (base, short(cn)), st['loc'], 'discharged' if ok else 'finding',
                                         why='guarded by size() != capacity()' if ok else 'insert into a fixed-capacity list without a capacity test: std::bad_alloc escapes the C API'))
     # ---- R6: m_chipChannels.clear() only after the notes that reference the old table are gone
